@@ -71,15 +71,19 @@ pub struct EventSink { pub filler: u8 }
 impl EventSink { #[verifier::external_body] pub fn emit_all(&self, events: Vec<Event>) { unimplemented!() } }
 
 // items of a request; `answers()` = the call id a function_call_output item answers
-#[derive(Clone)]
 pub struct ItemParam { pub filler: u8 }
+impl Clone for ItemParam { #[verifier::external_body] fn clone(&self) -> (r: Self) ensures r == *self { unimplemented!() } }
+pub uninterp spec fn user_item(p: Seq<char>) -> ItemParam;
 impl ItemParam {
     pub uninterp spec fn answers(&self) -> Seq<char>;
-    #[verifier::external_body] pub fn user_message_text(p: &str) -> ItemParam { unimplemented!() }
+    #[verifier::external_body] pub fn user_message_text(p: &str) -> (r: ItemParam) ensures r == user_item(p@) { unimplemented!() }
 }
-pub struct CreateResponsePayload { pub filler: u8 }
-#[verifier::external_body] pub fn build_streaming_request(c: &OpenResponsesConfig, prompt: &str) -> CreateResponsePayload { unimplemented!() }
-#[verifier::external_body] pub fn build_streaming_request_items(c: &OpenResponsesConfig, items: Vec<ItemParam>) -> CreateResponsePayload { unimplemented!() }
+// `input`: the items a request is built from (ghost; what "each request's input extends the previous one" is about).  NOT modelled: the
+// opt-in compatibility option followup_user_message (ADR-0005 l.26), with which the real follow-up builder appends one trailing user message to
+// the request - not to the history - so that, literally, request n+1 extends request n only up to that trailer (observed, by design)
+pub struct CreateResponsePayload { pub input: Seq<ItemParam>, pub filler: u8 }
+#[verifier::external_body] pub fn build_streaming_request(c: &OpenResponsesConfig, prompt: &str) -> (r: CreateResponsePayload) ensures r.input == seq![user_item(prompt@)] { unimplemented!() }
+#[verifier::external_body] pub fn build_streaming_request_items(c: &OpenResponsesConfig, items: Vec<ItemParam>) -> (r: CreateResponsePayload) ensures r.input == items@ { unimplemented!() }
 // timeless fact: `calls` is the batch of function calls of one provider response, in provider output order
 pub uninterp spec fn drained(calls: Seq<FunctionCallItem>) -> bool;
 pub open spec fn answers_batch(items: Seq<ItemParam>, calls: Seq<FunctionCallItem>) -> bool {
@@ -88,8 +92,9 @@ pub open spec fn answers_batch(items: Seq<ItemParam>, calls: Seq<FunctionCallIte
 // effect constraint: a follow-up that carries tool outputs (stateful mode) answers exactly one drained
 // batch, call by call, in provider order
 #[verifier::external_body]
-pub fn build_streaming_followup_request(c: &OpenResponsesConfig, prev: Option<&str>, items: Vec<ItemParam>) -> CreateResponsePayload
+pub fn build_streaming_followup_request(c: &OpenResponsesConfig, prev: Option<&str>, items: Vec<ItemParam>) -> (r: CreateResponsePayload)
     requires prev is Some ==> exists|calls: Seq<FunctionCallItem>| #![auto] drained(calls) && answers_batch(items@, calls),     // [followup.requires_outputs_answer_each_call_once_in_order]
+    ensures r.input == items@,
 { unimplemented!() }
 
 //@@ item crates/ripd/src/session.rs struct FunctionCallItem
@@ -126,8 +131,10 @@ pub open spec fn answers_prefix(items: Seq<ItemParam>, calls: Seq<FunctionCallIt
 pub open spec fn is_prefix<T>(a: Seq<T>, b: Seq<T>) -> bool { a.len() <= b.len() && b.subrange(0, a.len() as int) =~= a }
 
 //@@ fn crates/ripd/src/session.rs run_openresponses_agent_loop rules=R3,R4,R9 attr=verifier::exec_allows_no_decreases_clause
+//@@ rewrite let mut collector = ToolCallCollector::default(); ==>> proof { assert(stateless_history ==> is_prefix(last_input, payload.input)); last_input = payload.input; } let mut collector = ToolCallCollector::default();
 //@@ sig
 //@@ entry
+    let ghost mut last_input: Seq<ItemParam> = Seq::empty();      // the input of the request sent last
     let ghost mut sent_history: Seq<ItemParam> = Seq::empty();
     let ghost mut handled: int = 0;       // every call item taken from a provider batch (executed or refused)
 //@@ loop 0
@@ -136,6 +143,11 @@ pub open spec fn is_prefix<T>(a: Seq<T>, b: Seq<T>) -> bool { a.len() <= b.len()
         stateless_history == config.stateless_history,
         // stateless mode: the history a request is built from only ever grows
         is_prefix(sent_history, history_items@),                                                                       // [loop.stateless_history_extends]
+        // stateless mode: everything the last request carried is still at the front of the history the next one is built from, and a
+        // compiled context waiting to be sent as the first request is that history
+        stateless_history ==> is_prefix(last_input, history_items@),                                                   // [loop.stateless_request_input_extends_the_previous_request]
+        (stateless_history && initial_request_items is Some) ==> initial_request_items->Some_0@ == history_items@,
+        followup_tool_outputs is Some ==> initial_request_items is None,
         // the outputs carried into the next request answer one provider batch, once each, in provider order
         followup_tool_outputs matches Some(outs) ==> exists|calls: Seq<FunctionCallItem>| #![auto] drained(calls) && answers_batch(outs@, calls),   // [loop.next_request_answers_each_call_once_in_order]
         (followup_tool_outputs is Some && !stateless_history) ==> previous_response_id is Some,
@@ -143,11 +155,11 @@ pub open spec fn is_prefix<T>(a: Seq<T>, b: Seq<T>) -> bool { a.len() <= b.len()
     proof { sent_history = history_items@; }
 //@@ loop 1 iter=it1
     invariant
-        is_prefix(sent_history, history_items@),
+        is_prefix(sent_history, history_items@), stateless_history ==> is_prefix(last_input, history_items@), initial_request_items is None,
 //@@ loop 2 iter=it2
     invariant
         handled == tool_call_count && tool_call_count <= DEFAULT_MAX_TOOL_CALLS,          // [loop.tool_calls_bounded]
-        is_prefix(sent_history, history_items@),
+        is_prefix(sent_history, history_items@), stateless_history ==> is_prefix(last_input, history_items@), initial_request_items is None,
         it2.snapshot@.remaining() == tool_calls@,
         it2.history@.len() == it2.index@,
         forall|k: int| 0 <= k < it2.index@ ==> #[trigger] it2.history@[k] == tool_calls@[k],
